@@ -11,6 +11,7 @@ pub mod c10;
 pub mod c11;
 pub mod c12;
 pub mod c13;
+pub mod c13clone;
 pub mod c14;
 pub mod c15;
 pub mod c16;
